@@ -888,3 +888,29 @@ impl Choices {
         v
     }
 }
+
+static EMERGENCY: std::sync::OnceLock<(String, u64)> = std::sync::OnceLock::new();
+
+impl Env {
+    /// Registers property and seed for [`emergency_violation`].
+    pub fn arm_emergency(&self) {
+        let _ = EMERGENCY.set((self.property.clone(), self.seed));
+    }
+}
+
+/// For violations after which the process cannot continue (an unfinished scope cannot be dropped:
+/// it aborts the process by design): writes the replay file, prints the VIOLATION line and exits 1.
+/// The case is not shrunk.
+pub fn emergency_violation(part: &str, case: Value, reason: &str) -> ! {
+    let (property, seed) = EMERGENCY.get().cloned().unwrap_or(("C00".into(), 0));
+    let dir = verif_root().join("replays");
+    let _ = std::fs::create_dir_all(&dir);
+    let path = dir.join(format!("{property}-{part}-seed{seed}-stuck.json"));
+    let v = json!({"property": property, "part": part, "seed": seed, "reason": reason, "case": case});
+    let _ = std::fs::write(&path, serde_json::to_string_pretty(&v).unwrap());
+    println!("failure in part {part}: {reason}");
+    println!("VIOLATION property={property} replay={}", path.display());
+    use std::io::Write;
+    let _ = std::io::stdout().flush();
+    std::process::exit(1);
+}
